@@ -284,6 +284,9 @@ def worlds(draw, ninst=3, hostile_names=True, split_paths=False, foreign_ids=Fal
             root["dependencies"] = {draw(inst_keys): REF()}
         elif pos in ("allOf", "anyOf", "oneOf"):
             root[pos] = [REF() if draw(st.booleans()) else draw(leaf) for _ in range(draw(st.integers(1, 3)))]
+            if draw(st.integers(0, 2)) == 0 and isinstance(root[pos][0], dict) and "$ref" in root[pos][0]:
+                root[pos].append(copy.deepcopy(root[pos][0]))      # the same definition reached by two routes for one node
+                classes.append("two-routes-to-one-definition")
         elif pos == "not":
             root["not"] = REF()
         elif pos == "extends":
@@ -407,6 +410,13 @@ def worlds(draw, ninst=3, hostile_names=True, split_paths=False, foreign_ids=Fal
         root[other] = draw(st.sampled_from(["http://ex.test/elsewhere/", "http://other.test/q/", "zzz/"]))
         classes.append("foreign-id-keyword")
     xs = draw(st.lists(instances(), min_size=ninst, max_size=ninst))
+    if draw(st.integers(0, 3)) == 0:
+        # sizes far beyond the rest: an object with two dozen members, an array of forty elements, both also nested once
+        v1, v2 = draw(inst_scalar), draw(inst_scalar)
+        big_o = dict([(k, v1) for k in ("a", "b", "c", "k", "")] + [("w%d" % i, v2 if i % 2 else i) for i in range(20)])
+        big_a = [v1 if i % 3 else v2 for i in range(40)]
+        xs = xs + [big_o, big_a, {"a": big_o, "b": big_a, "k": big_o}, [big_o, big_a, big_o]]
+        classes.append("big-instances")
     if foreign_instances:
         xs = list(draw(st.permutations(foreign_instances))) + xs
     if nested_instances:
@@ -445,6 +455,14 @@ def worlds(draw, ninst=3, hostile_names=True, split_paths=False, foreign_ids=Fal
 
 # ---------------------------------------------------------------------------------------------
 # using a world
+
+def instances_of(case):
+    """The world's instances; with the `alias` flag, equal arrays / objects inside ONE instance are one Python object
+    (also after a replay from JSON, where the generator's own sharing is lost)."""
+    if case.get("alias"):
+        return [impl.alias_equal(copy.deepcopy(x)) for x in case["instances"]]
+    return case["instances"]
+
 
 def root_uri(case):
     idkw = impl.IDKW[case["draft"]]
